@@ -187,7 +187,7 @@ func diffOutcome(a, b parseOutcome) string {
 func c02Run(c *Ctx) {
 	r := c.R
 	k := c.K
-	if k%13 == 11 {
+	if inHistTail(c, 48000, 1500000) {
 		// the long spelling after the program renamed something between two parses on one parser
 		histCase(c, GenDecl(c.Sub("d"), c02Cfg()), []string{"rename-namespace", "rename-option", "delimiter"}, []string{"parse"})
 		return
@@ -438,11 +438,11 @@ func init() {
 		Cases: func(tier string) int64 {
 			switch tier {
 			case "thorough":
-				return 1500000
+				return 1500000 + 125000 // + history cases
 			case "race":
 				return 0
 			}
-			return 48000
+			return 48000 + 4000 // + history cases
 		},
 		Run:           c02Run,
 		MinNontrivial: 300,
